@@ -501,3 +501,53 @@ def converter_pass_through(ctx, rule, users):
                               'string-form operations copy every variable they do not touch this way) the fill values become ordinary data and the mask is lost - a variable that '
                               'lacks the dimension does not come back unchanged'))
     return nsites
+
+
+FUZZY_KEYS = ('lay', 'lay47', 'lay1', 'layer', 'lay_stag', 'lay1b', 'xlay', 'la', 'LAY47', 'lay 2')
+FUZZY_WANT = ['lay47', 'lay1']
+
+
+def fuzzy_companions(ctx, rule, relpath, qual):
+    """R-FUZZYDIM.  The string forms of slice/reduce extend the request for dimension D to the companion dimensions 'D<digits>'
+    (layer -> layer47).  Every other dimension - in particular one whose name merely starts with D (bottom_top_stag, latitude) - is
+    not selected, so the variables on it must come back unchanged.  The comprehension that collects the companions is evaluated by
+    the checker's own evaluator on sample names; nothing of the repository runs."""
+    from . import consteval
+    from .report import Finding
+    m = ctx.src.mod(relpath)
+    fn = m.func(qual)
+    where = 'src/PseudoNetCDF/%s %s' % (relpath, qual)
+    comps = [c for c in walk_expr(fn) if isinstance(c, (ast.ListComp, ast.GeneratorExp)) and len(c.generators) == 1
+             and norm(c.generators[0].iter).endswith('.dimensions') and c.generators[0].ifs and isinstance(c.generators[0].target, ast.Name)
+             and isinstance(c.elt, ast.Name) and c.elt.id == c.generators[0].target.id]
+    if not comps:
+        ctx.undec(rule, qual, where, 'no comprehension over the dimensions collects the companion dimensions')
+        return 0
+    n = 0
+    for c in comps:
+        g = c.generators[0]
+        free = set(x.id for i in g.ifs for x in ast.walk(i) if isinstance(x, ast.Name)) - set([g.target.id, 'len', 'str'])
+        if len(free) != 1:
+            ctx.undec(rule, qual, where, 'companion condition depends on %s' % sorted(free))
+            continue
+        dk = list(free)[0]
+        n += 1
+
+        def hook(e, _it=g.iter):
+            if e is _it:
+                return tuple(FUZZY_KEYS)
+            return None
+        got = consteval.ev(c, {dk: 'lay'}, hook)
+        if got is consteval.UNK:
+            ctx.undec(rule, qual, where, 'companion condition outside the evaluated fragment: %s' % norm(g.ifs[0])[:80])
+        elif list(got) == FUZZY_WANT:
+            ctx.ok(rule, qual, where, "for 'lay' the companions among %d sample names are exactly %s" % (len(FUZZY_KEYS), FUZZY_WANT))
+        else:
+            extra = [k for k in got if k not in FUZZY_WANT]
+            miss = [k for k in FUZZY_WANT if k not in got]
+            from . import api as _api
+            ctx.violation(Finding(rule, relpath, qual, _api.stmt_of(c),
+                                  "a request for dimension 'lay' is extended to %s%s: only the dimensions named 'lay<digits>' are companions; the "
+                                  "variables on any other dimension were not selected and must come back unchanged"
+                                  % (extra or 'no other dimension', (' and not to %s' % miss) if miss else '')), oid=qual)
+    return n
